@@ -58,6 +58,18 @@ def _check_call(e, tag, geno, sel, xoprob):
     e.assumptions[:] = saved
 
 
+def _same_xoprob(e, tag, xoprob, ref):
+    """the crossover probabilities handed to the kernel are the parental matrix's (the same array or an equal one)"""
+    if xoprob is ref:
+        e.prove("callsite:%s:xoprob-is-the-parental-matrix's" % tag, True, kind="call-pre")
+        return
+    j = z3.Int(e.fresh_name("j"))
+    ok = isinstance(xoprob, EArr) and xoprob.ndim == 1
+    e.prove("callsite:%s:xoprob-is-the-parental-matrix's" % tag,
+            z3.And(_t(xoprob.shape[0]) == _t(ref.shape[0]), z3.Implies(z3.And(0 <= j, j < _t(ref.shape[0])), xoprob.at(j) == ref.at(j))) if ok else False,
+            kind="call-pre")
+
+
 def make_stubs(box):
     """contract stubs for mat_mate / mat_dh; box['stages'] (python list, concrete part) and box['ncalls'] (ghost counter)"""
     def phase_fn(e, nm):
@@ -73,7 +85,7 @@ def make_stubs(box):
         _check_call(e, tag + ":male", mgeno, msel, xoprob)
         e.prove("callsite:%s:pre:same-number-of-gametes" % tag, _t(fsel.shape[0]) == _t(msel.shape[0]), kind="call-pre")
         e.prove("callsite:%s:generator-is-the-protocol's" % tag, rng is box["rng"], kind="call-pre")
-        e.prove("callsite:%s:xoprob-is-the-parental-matrix's" % tag, xoprob is box["xoprob"], kind="call-pre")
+        _same_xoprob(e, tag, xoprob, box["xoprob"])
         n, p = fsel.shape[0], xoprob.shape[0]
         ph0, ph1 = phase_fn(e, "phF"), phase_fn(e, "phM")
         res = EArr.fresh("prog", (2, n, p), fgeno.dtype)
@@ -91,7 +103,7 @@ def make_stubs(box):
         tag = "mat_dh#%d" % len(box["stages"])
         _check_call(e, tag, geno, sel, xoprob)
         e.prove("callsite:%s:generator-is-the-protocol's" % tag, rng is box["rng"], kind="call-pre")
-        e.prove("callsite:%s:xoprob-is-the-parental-matrix's" % tag, xoprob is box["xoprob"], kind="call-pre")
+        _same_xoprob(e, tag, xoprob, box["xoprob"])
         n, p = sel.shape[0], xoprob.shape[0]
         ph0 = phase_fn(e, "phD")
         res = EArr.fresh("dh", (2, n, p), geno.dtype)
